@@ -144,7 +144,7 @@ def main():
         },
         "engines": [
             {"name": "tlc+godrv", "path": "/verif/check", "serves_properties": [c["property_id"] for c in checks],
-             "kind_free_text": "TLA+ specifications in /verif/spec checked by TLC; Go driver /verif/harness/cmd/drv (built with -tags verif against /repo) replays TLC vectors into the real code and records real-code traces that TLC validates"},
+             "kind_free_text": "TLA+ specifications in /verif/spec checked by TLC; Go driver /verif/harness/cmd/drv (built with -tags verif against /repo) replays TLC vectors into the real code and records real-code traces that TLC validates; unbounded design obligations by Apalache (PagingInt, PipelineInt, TileAddrInt, LevelArithInt) and TLAPS (MortonProofs) run inside the same checks"},
         ],
         "checks": checks,
         "not_applicable": na,
